@@ -42,7 +42,7 @@ pub fn plan(prop: &str) -> Vec<Batch> {
         "C12" => vec![b("b", "C12", 40_000, 1_500_000, "release"), b("b", "C12x", 400, 10_000, "release")],
         "C13" => vec![b("b", "C13", 40_000, 1_500_000, "release")],
         "C14" => vec![b("a", "C14", 50_000, 1_000_000, "release")],
-        "C15" => vec![b("b", "C15", 40_000, 1_500_000, "release"), b("a", "C15", 5_000, 100_000, "release")],
+        "C15" => vec![b("b", "C15", 40_000, 1_500_000, "release"), b("a", "C15", 5_000, 100_000, "release"), b("b", "C15x", 300, 8_000, "release")],
         "C16" => vec![b("a", "C16", 10_000, 250_000, "release")],
         "C17" => vec![b("a", "C17", 60_000, 1_000_000, "release")],
         "C18" => vec![b("c", "C18", 3_000, 80_000, "release")],
@@ -534,7 +534,7 @@ fn rule_for(prop: &str) -> &'static str {
         "C11" => "seeded non-improving walks through RSSchedParallelNeighborhood, all candidates of each state; non-trivial: >= 3 swap kinds produced candidates; distinct by digest of (instance, walk)",
         "C12" => "batch 1: seeded tour edits (insert/remove/sub_path/conflict) inside operation histories on tie-rich, partly non-metric networks against the executable reference; batch 2 (small scope, exhaustive per network): on each of N seeded networks with <= 7 activities per type, ALL valid tours (two depot pairs incl. overflow, and as dummy tours), ALL valid paths of <= 3 activities (with/without leading/trailing depot) and ALL segments are compared (logical_steps counts these comparisons); the networks themselves are sampled; non-trivial: >= 3 successful operations of >= 2 kinds (batch 1) / >= 50 comparisons (batch 2); distinct by digest",
         "C14" => "seeded instances without type coupling through MinCostFlowSolver::solve vs an independent successive-shortest-path optimum; non-trivial: >= 2 vehicles and >= 1 chained pair; distinct by digest",
-        "C15" => "seeded Transition operation sequences against Vec<Vec<VehicleIdx>> plus optimiser input/output in the pipeline; non-trivial: >= 3 operations on >= 2 cycles (ops) / >= 2 cycles or optimiser changed a cycle (pipeline); distinct by digest",
+        "C15" => "batch 3 (small bound, exhaustive per start state): ALL sequences of <= 3 operations (move / remove / add at the end / add to own cycle / 3-opt, every argument) on <= 4 vehicles, every intermediate transition checked (logical_steps counts the states). Batches 1-2: seeded Transition operation sequences against Vec<Vec<VehicleIdx>> plus optimiser input/output in the pipeline; non-trivial: >= 3 operations on >= 2 cycles (ops) / >= 2 cycles or optimiser changed a cycle (pipeline); distinct by digest",
         "C16" => "seeded swarm instances with slots, stage snapshots of one solve_instance call; non-trivial: optimiser changed a cycle or the search accepted a step; distinct by run digest",
         "C17" => "seeded instances on tie-rich grids, all ordered node pairs; non-trivial: >= 1 pair whose times tie exactly; distinct by digest of the instance",
         "C18" => "seeded client scripts, chunked delivery, interleaved polls and faults against the real axum Router over simulated pipes; non-trivial: >= 2 overlapping connections, >= 1 fault and >= 1 valid solve completing after it; distinct by digest of (scripts, schedule trace)",
